@@ -241,3 +241,32 @@ func C19_Conv_UnsignedAsSigned[S constraints.Unsigned, D constraints.Signed]() {
 func C19_Conv_UnsignedAsUnsigned[S, D constraints.Unsigned]() {
 	c19conv[S, D](signal.UnsignedAsUnsigned[S, D])
 }
+
+// C19_BigStriped: two goroutines bulk-read one shared buffer large enough for size-dependent paths
+// (a striped read with ragged destinations, an interleaved read); results as in a sequential run.
+func C19_BigStriped[T signal.SignalTypes]() {
+	C := 2
+	K := vf.Param("HugeSamples", 4100) / C
+	base := signal.Alloc[T](signal.Allocator{Channels: C, Length: K, Capacity: K})
+	pos := []int{0, C * (K / 2), C*K - 2}[vf.Pick("at", 0, 2)] // channel 0 of the first, a middle and the last frame
+	x := vf.Any[T]("x")
+	base.SetSample(pos, x)
+	striped := func(r *readResult[T]) {
+		r.striped = [][]T{make([]T, K), make([]T, K-1)} // ragged: the result is the longest channel
+		r.n2 = signal.ReadStriped(base, r.striped)
+	}
+	flat := func(r *readResult[T]) {
+		r.flat = make([]T, C*K)
+		r.n1 = signal.Read(base, r.flat)
+	}
+	var r1, r2, seq readResult[T]
+	vf.Par(func() { striped(&r1) }, func() { flat(&r2) })
+	vf.Cover("joined")
+	striped(&seq)
+	flat(&seq)
+	vf.Assert("big:storage-untouched", vf.SameBits(base.Sample(pos), x))
+	vf.Assert("big:striped-count", r1.n2 == K && seq.n2 == K)
+	vf.Assert("big:flat-count", r2.n1 == K && seq.n1 == K)
+	vf.Assert("big:striped-sample", vf.SameBits(r1.striped[0][pos/C], x) && vf.SameBits(seq.striped[0][pos/C], x))
+	vf.Assert("big:flat-sample", vf.SameBits(r2.flat[pos], x) && vf.SameBits(seq.flat[pos], x))
+}
